@@ -63,7 +63,8 @@ def run(ctx):
     sb = fx.body("<std::ffi::os_str::OsStr as clap_lex::ext::OsStrExt>::split_once")
     res.check(len(sb.calls_to(r"OsStrExt>?::find$")) == 1 and not tree_calls(sb, r"rfind|::rev$|rposition|::last$"), "R8.1", "split-at-first", sb.where(), "split_once cuts at find() = first occurrence", "split_once no longer cuts at the first occurrence")
     fd = fx.body("<std::ffi::os_str::OsStr as clap_lex::ext::OsStrExt>::find")
-    res.check(bool(fd.calls_to(r"Iterator>?::find$")) and not tree_calls(fd, r"rfind|::rev$|rposition"), "R8.1", "find-forward", fd.where(), "find scans forward", "OsStrExt::find no longer returns the first match")
+    fms = first_match_scan(fx, fd)
+    res.check(bool(fms) and fms["first"], "R8.1", "find-forward", fd.where(), "find scans forward", "OsStrExt::find no longer returns the first match")
     ps = fx.body("clap_builder::parser::parser::Parser::parse_short_arg")
     spx = [c for x in tree(ps) for c in x.calls_to(r"OsStrExt>?::strip_prefix$")]
     res.check(len(spx) == 1 and const_of(spx[0].body, spx[0].args[1]) == "=", "R8.1", "short-strip-one-equals", ps.where(), "`-o=v`: exactly one leading `=` stripped", "short attached value: expected one strip_prefix(\"=\"), found %s" % [const_of(c.body, c.args[1]) for c in spx])
